@@ -1,4 +1,7 @@
 -- Root of the `PwVerif` library: every property file (and through them the models and lemmas).
 import PwVerif.Props.C10
+import PwVerif.Props.C13
+import PwVerif.Props.C14
+import PwVerif.Props.C15
 import PwVerif.Props.C19
 import PwVerif.Driver
